@@ -614,6 +614,7 @@ def check(pid, tier, replay=None):
             "partial_theorems": [t for t in thms if t.endswith("_partial")],
             "refuted_theorems": [t for t in thms if t.endswith("_refuted")],
             "broken": [{"kind": b[0], "name": b[1], "detail": b[2][:400]} for b in broken],
+            "translator_selftest": selftest_status(),
             "notes": notes,
         },
         "assumptions": prop["assumptions"],
@@ -654,10 +655,20 @@ def check(pid, tier, replay=None):
     return 1
 
 
+def selftest_status():
+    """result of the last tools/srcgen_selftest.sh run (differential test of the translator itself, run by --setup)"""
+    try:
+        return json.load(open(os.path.join(WORK, "srcgen_selftest.json")))
+    except Exception:
+        return {"ok": None, "why": "not run (python3 tools/check.py --setup runs it)"}
+
+
 def setup():
     t0 = time.time()
     os.makedirs(WORK, exist_ok=True)
     build_srcgen()
+    rc, out, dt = run(["bash", os.path.join(ROOT, "tools", "srcgen_selftest.sh"), "1"], cwd=ROOT, env=GOENV, timeout=1500)
+    log("setup", out.strip().split("\n")[-1] if out.strip() else "srcgen selftest rc=%d" % rc)
     pids = sorted(os.path.basename(os.path.dirname(p)) for p in glob.glob(os.path.join(ROOT, "props", "*", "prop.json")))
     for pid in pids:
         ok, msg = srcgen(pid)
